@@ -24,6 +24,12 @@ fn handle(line: &str) -> String {
         }
     }
     seq::MAX_READ.store(max_read, std::sync::atomic::Ordering::Relaxed);
+    // `dec@1` / `parse@1`: the same decoder call with logging switched off (time / allocation probes on very large inputs
+    // measure the decoder, not the Debug formatting of the whole remaining input in its log records)
+    let quiet = max_read > 0 && matches!(parts.first().copied(), Some("dec") | Some("parse"));
+    if std::env::var("HARNESS_NO_LOGGER").is_err() {
+        log::set_max_level(if quiet { log::LevelFilter::Off } else { log::LevelFilter::Trace });
+    }
     match parts.as_slice() {
         ["len.ser", style, n] => match n.parse::<usize>() {
             Ok(n) => codec::op_len_ser(style, n),
